@@ -65,7 +65,14 @@ func C14(c *Ctx) {
 		if pr == nil {
 			return
 		}
+		// and a fresh process whose goroutines are the very first users of the runtime (no warm-up)
+		coldLog := filepath.Join(raceDir, fmt.Sprintf("cold%d", i))
+		if pc := RunProbe(&sub, sc, "schedmon", []string{"-race"}, []string{"GORACE=halt_on_error=0 log_path=" + coldLog}, []string{"-mode", "cold"}, 30*time.Minute, fmt.Sprintf("schedmon-cold%d", i)); pc == nil {
+			return
+		}
 		files, _ := filepath.Glob(logPath + ".*")
+		more, _ := filepath.Glob(coldLog + ".*")
+		files = append(files, more...)
 		for _, f := range files {
 			bs, _ := os.ReadFile(f)
 			blocks := strings.Split(string(bs), "WARNING: DATA RACE")
